@@ -225,7 +225,19 @@ func (l *Loop) EarlyExits() []Exit {
 						out = append(out, Exit{s, "continue-outer"})
 					}
 				case token.GOTO:
-					out = append(out, Exit{s, "goto"})
+					// a goto whose label lies inside this loop's body stays in the iteration
+					inside := false
+					if s.Label != nil {
+						ast.Inspect(l.Body, func(y ast.Node) bool {
+							if ls, ok := y.(*ast.LabeledStmt); ok && ls.Label.Name == s.Label.Name {
+								inside = true
+							}
+							return !inside
+						})
+					}
+					if !inside {
+						out = append(out, Exit{s, "goto"})
+					}
 				}
 			}
 			return true
